@@ -9,6 +9,8 @@ class Facts:
         with open(path) as f:
             d = json.load(f)
         self.raw = d
+        import inline
+        self.spliced = inline.normalise(d)        # helpers that are not in the confirmed inventory are analysed inside their callers
         self.bodies = {n: Body(n, b, self) for n, b in d['bodies'].items()}
         self.adts = d['adts']
         self.statics = d['statics']
